@@ -125,8 +125,57 @@ func genAEValue(r *emit.Rng) string {
 	return sb.String()
 }
 
+// long Accept-Encoding headers: 9-20 entries over one or several header lines, the decisive entry late
+// (a q=0 refusal after an earlier wildcard, or the only acceptable coding at the end)
+func genLongAE(r *emit.Rng) []string {
+	n := 9 + r.Intn(12)
+	fillers := []string{"br", "deflate", "compress", "x-gzip", "x-compress", "lzma", "bzip2", "snappy", "xz", "lz4", "sdch", "exi", "pack200-gzip"}
+	qs := []string{"", ";q=0.1", ";q=0.5", ";q=0.9", ";q=1", ";q=0"}
+	entries := make([]string, n)
+	for i := range entries {
+		entries[i] = fillers[r.Intn(len(fillers))] + qs[r.Intn(len(qs))]
+	}
+	target := []string{"gzip", "zstd"}[r.Intn(2)]
+	late := 8 + r.Intn(n-8) // index >= 8: the ninth entry or later
+	switch r.Intn(4) {
+	case 0, 1: // wildcard early, explicit refusal late
+		entries[r.Intn(8)] = "*" + []string{"", ";q=0.5", ";q=0.2"}[r.Intn(3)]
+		entries[late] = target + ";q=0"
+	case 2: // the only acceptable coding comes late
+		for i := range entries {
+			if r.Chance(1, 2) {
+				entries[i] = fillers[r.Intn(len(fillers))] + ";q=0"
+			}
+		}
+		entries[late] = target + []string{"", ";q=0.7"}[r.Intn(2)]
+	default: // early low preference, late wildcard refusal and a late better coding
+		entries[r.Intn(8)] = "gzip;q=0.2"
+		entries[late] = "zstd;q=0.9"
+		if late+1 < n {
+			entries[late+1] = "*;q=0"
+		}
+	}
+	lines := 1 + r.Intn(3)
+	if lines == 1 {
+		return []string{strings.Join(entries, []string{",", ", "}[r.Intn(2)])}
+	}
+	var out []string
+	per := (n + lines - 1) / lines
+	for i := 0; i < n; i += per {
+		j := i + per
+		if j > n {
+			j = n
+		}
+		out = append(out, strings.Join(entries[i:j], ", "))
+	}
+	return out
+}
+
 // header values for Accept-Encoding: nil = header absent
 func genAE(r *emit.Rng) []string {
+	if r.Chance(1, 10) {
+		return genLongAE(r)
+	}
 	switch r.Intn(14) {
 	case 0:
 		return nil
@@ -785,6 +834,9 @@ func runRequest(c *reqCase) reqResult {
 	if c.disable {
 		res.tags = append(res.tags, "compression-disabled")
 	}
+	if nEntries := strings.Count(strings.Join(aeIn, ","), ",") + 1; nEntries >= 9 {
+		res.tags = append(res.tags, "accept-encoding-entries>=9")
+	}
 	if c.server {
 		res.tags = append(res.tags, "via-server")
 	}
@@ -870,6 +922,9 @@ var accepts = []string{
 	"application/vnd.google.protobuf;proto=io.prometheus.client.MetricFamily;encoding=compact-text",
 	"application/vnd.google.protobuf;proto=io.prometheus.client.MetricFamily;encoding=delimited;q=0.7,text/plain;q=0.3",
 	"application/json", "garbage;;", "",
+	"image/png, image/jpeg;q=0.9, image/gif;q=0.8, text/html;q=0.7, application/xml;q=0.6, application/json;q=0.5, text/css;q=0.4, text/csv;q=0.3, application/openmetrics-text;version=1.0.0;q=0.95, text/plain;version=0.0.4;q=0.2",
+	"a/b;q=0.1, c/d;q=0.1, e/f;q=0.1, g/h;q=0.1, i/j;q=0.1, k/l;q=0.1, m/n;q=0.1, o/p;q=0.1, q/r;q=0.1, application/vnd.google.protobuf;proto=io.prometheus.client.MetricFamily;encoding=delimited",
+	"a/b, c/d, e/f, g/h, i/j, k/l, m/n, o/p, q/r, s/t, u/v, text/plain;version=0.0.4;q=0.5, application/openmetrics-text;version=0.0.1;q=0.6",
 }
 
 var plausibleAE = []string{"gzip", "zstd", "gzip, deflate, br", "gzip, deflate, br, zstd", "zstd;q=1.0, gzip;q=0.8", "gzip;q=1.0, zstd;q=0.8", "*",
@@ -895,6 +950,9 @@ func genReqCase(r *emit.Rng, server bool) *reqCase {
 	}
 	if r.Chance(2, 5) {
 		c.ae = []string{plausibleAE[r.Intn(len(plausibleAE))]}
+	}
+	if r.Chance(1, 12) {
+		c.ae = genLongAE(r)
 	}
 	if r.Chance(5, 6) {
 		c.hasAccept = true
@@ -1125,7 +1183,11 @@ func runC11(c *cli.Ctx) error {
 			offers = []string{"identity", "gzip", "zstd"}
 		}
 		t, nt := parseCase(v, offers)
-		w.Add(t, nt, fmt.Sprintf("values:%d", len(v)), fmt.Sprintf("offers:%d", len(offers)))
+		tags := []string{fmt.Sprintf("values:%d", len(v)), fmt.Sprintf("offers:%d", len(offers))}
+		if strings.Count(strings.Join(v, ","), ",") >= 8 {
+			tags = append(tags, "entries>=9")
+		}
+		w.Add(t, nt, tags...)
 	}
 	if err := w.Flush(); err != nil {
 		return err
